@@ -52,7 +52,7 @@ def classify(diag):
             return "note"
         if "rlimit" in msg.lower() or "resource limit" in msg.lower():
             return "rlimit"
-        if any(k in msg for k in ("postcondition not satisfied", "precondition not satisfied", "assertion failed", "possible arithmetic underflow/overflow", "invariant not satisfied", "possible division by zero", "decreases not satisfied", "unreachable", "might fail", "cannot show", "recommendation not met", "loop invariant", "failed to", "not satisfied")):
+        if any(k in msg for k in ("postcondition not satisfied", "precondition not satisfied", "assertion failed", "possible arithmetic underflow/overflow", "invariant not satisfied", "possible division by zero", "decreases not satisfied", "unreachable", "might fail", "cannot show", "recommendation not met", "loop invariant", "failed to", "not satisfied", "unable to prove")):
             return "error"
         return "frontend"
     return "note"
